@@ -293,13 +293,13 @@ def run(ctx):
     R2 = ctx.rule('R11.2', 'no unwrap/expect on an I/O or crate Result in the generic builder code', floor=1)
     scope = in_scope(lib)
     ctx.count('functions_in_scope', len(scope))
-    n, _ = r11_1_2(ctx, lib, scope, R1, R2)
+    n, _ = ctx.step(r11_1_2, ctx, lib, scope, R1, R2)
     ctx.count('result_values_followed', n)
     ctx.check(R2, True, 'scan-complete', '', detail='%d Result-producing call sites in %d functions scanned for unwrap/expect' % (n, len(scope)))
     # positive controls
     fx = ctx.fixture
     fscope = {f.path: f for f in fx.fn_list if f.path.startswith('ctl_')}
-    _, hits = r11_1_2(ctx, fx, fscope, R1, R2, control=True)
+    _, hits = ctx.step(r11_1_2, ctx, fx, fscope, R1, R2, control=True)
     want = {'dropped': 'ctl_drop_result', 'swallowed': 'ctl_ok_result', 'unwrapped': 'ctl_unwrap_result', 'matched-bad': 'ctl_match_swallow'}
     for k, fnname in want.items():
         ctx.check(R1 if k != 'unwrapped' else R2, fnname in hits[k], 'control-' + k, 'the rule no longer fires on the fixture\'s %s instance: checker broken' % k, kind='undecided', detail=hits[k])
@@ -307,10 +307,10 @@ def run(ctx):
         for e in A.err:
             ctx.missing('R11.3', 'anchor', e)
     else:
-        r11_3(ctx, A)
+        ctx.step(r11_3, ctx, A)
     # R11.4 = R07.2
     import rules.C07 as C07
-    C07.r07_2(ctx, A)
+    ctx.step(C07.r07_2, ctx, A)
     ctx.rules['R11.4'] = ctx.rules.pop('R07.2')
     ctx.rules['R11.4']['title'] = 'emission is write_all only (= R07.2): a zero-length write becomes WriteZero inside write_all'
     for v in ctx.violations:
@@ -320,4 +320,4 @@ def run(ctx):
     for s in ctx.samples:
         if s['rule'] == 'R07.2':
             s['rule'] = 'R11.4'
-    r11_5(ctx)
+    ctx.step(r11_5, ctx)
